@@ -8,7 +8,7 @@
    the simulated synchronous bus of the property (master and slave objects on one bus), [false] is a
    master whose own frames only leave (python-can default). *)
 From Coq Require Import ZArith List Bool String.
-From CV Require Import Base.Val Base.Tys Gen.NmtTables Model.RefNmt Model.Nmt Proofs.Nmt_proofs Gen.Src Proofs.Src_eq_nmt_emcy.
+From CV Require Import Base.Val Base.Tys Gen.NmtTables Model.RefNmt Model.Nmt Proofs.Nmt_proofs Gen.SrcC11 Proofs.Src_eq_c11.
 Import ListNotations.
 Open Scope string_scope.
 Open Scope list_scope.
@@ -165,7 +165,7 @@ Example C11_nv_waits :
 Proof. vm_compute. repeat split; repeat constructor. Qed.
 
 (* Tie to the source text: NmtMaster.on_heartbeat as translated from the CURRENT source by tools/py2coq.py
-   (Gen/Src.v, regenerated on every run) computes the model's new (_state, _state_received) and callback argument. *)
+   (Gen/SrcC11.v, regenerated on every run) computes the model's new (_state, _state_received) and callback argument. *)
 Theorem C11_source_heartbeat_is_model : forall m b rest,
   on_heartbeat m (b :: rest) =
   Ok ((fst (src_nmt_heartbeat b), Some (snd (src_nmt_heartbeat b))), snd (src_nmt_heartbeat b)).
